@@ -40,6 +40,9 @@ def gen_case(rng, kind=None, rules=False):
     if kind == "dvssa" and rng.random() < 0.5:
         case["volume"] = {"type": "tt", "cycle": rng.choice([1.0, 2.0, 4.0]), "avg": rng.choice([1.3, 2.0, 50.0]), "noise": rng.choice([0.0, 0.1]), "V0": 1.0}
     if rng.random() < 0.3: case["warmup"] = True       # a throwaway run on the same model / interface first
+    if rng.random() < 0.15: case["strided_grid"] = True  # the grid as a non-contiguous numpy view (S5_C05)
+    # a user-made delay queue shorter than the simulated span, with a column count that is no power of two: the ring wraps (S5_C06)
+    if kind in ("dssa", "dvssa") and rng.random() < 0.3: case["queue_cols"] = rng.choice([c_ for c_ in (3, 5, 6, 7) if c_ < n] or [n])
     return case
 
 def gen_cases(seed, tier):
@@ -127,5 +130,6 @@ def stats(cases):
     from collections import Counter
     return {"simulators": dict(Counter(c["kind"] + ("+safe" if c["safe"] else "") for c in cases)),
             "kinds": dict(Counter(rx["type"] for c in cases for rx in c["spec"]["reactions"])),
-            "grids_starting_after_t0": sum(1 for c in cases if c["times"][0] > 0), "with_warmup_run": sum(1 for c in cases if c.get("warmup"))}
+            "grids_starting_after_t0": sum(1 for c in cases if c["times"][0] > 0), "with_warmup_run": sum(1 for c in cases if c.get("warmup")),
+            "grids_passed_as_strided_views": sum(1 for c in cases if c.get("strided_grid")), "queues_shorter_than_the_span": sum(1 for c in cases if c.get("queue_cols"))}
 def key(case): return json.dumps([case["spec"], case["kind"], case["safe"], case["times"], case["seed"]], sort_keys=True)
